@@ -930,9 +930,9 @@ def check_bookkeeping(ctx, a, name, src_obj, tgt_obj, src, tgt, sc, exact_target
             lambda: "alignment_error() = %r, distance to current target %r" % (err, want),
         )
     # queries changed nothing
-    dd = digest.digest_diff(d_src0, digest.digest(src_obj))
+    dd = digest.parameter_mutation(d_src0, digest.digest(src_obj))
     ctx.expect(dd is None, prefix + ".source_object_mutated." + name, lambda: repr(dd))
-    dd = digest.digest_diff(d_tgt0, digest.digest(tgt_obj))
+    dd = digest.parameter_mutation(d_tgt0, digest.digest(tgt_obj))
     ctx.expect(dd is None, prefix + ".target_object_mutated." + name, lambda: repr(dd))
     return float(err)
 
@@ -956,9 +956,9 @@ def c_bookkeeping(case, ctx):
     ctx.event("noise=%g" % case["level"])
     sc = coord_scale(src, tgt)
     # construction left the inputs alone
-    dd = digest.digest_diff(d_s, digest.digest(src_obj))
+    dd = digest.parameter_mutation(d_s, digest.digest(src_obj))
     ctx.expect(dd is None, "bookkeeping.constructor_mutated_source." + name, lambda: repr(dd))
-    dd = digest.digest_diff(d_t, digest.digest(tgt_obj))
+    dd = digest.parameter_mutation(d_t, digest.digest(tgt_obj))
     ctx.expect(dd is None, "bookkeeping.constructor_mutated_target." + name, lambda: repr(dd))
     err = check_bookkeeping(ctx, a, name, src_obj, tgt_obj, src, tgt, sc)
     if "spec" in case:
@@ -1074,10 +1074,10 @@ def c_gpa(case, ctx):
     ctx.nontrivial(nt)
     if ft is not None:
         ctx.expect(g.target is target_obj, "gpa.fixed_target_not_kept", "")
-        dd = digest.digest_diff(dig_tgt, digest.digest(target_obj))
+        dd = digest.parameter_mutation(dig_tgt, digest.digest(target_obj))
         ctx.expect(dd is None, "gpa.fixed_target_mutated", lambda: repr(dd))
     for i, s in enumerate(sources):
-        dd = digest.digest_diff(dig_src[i], digest.digest(s))
+        dd = digest.parameter_mutation(dig_src[i], digest.digest(s))
         ctx.expect(dd is None, "gpa.source_mutated", lambda: "i=%d %r" % (i, dd))
 
 
